@@ -35,7 +35,7 @@ def finish(K, prop, tier, seed, t0, level, reps, extra_cov, assumptions, rule):
               "layer-B models). traces_validated_against_impl: TLC-generated behaviours replayed through the public API plus recorded executions "
               "validated by TLC. evaluations: public calls executed and compared. distinct_nontrivial: generated configurations that produced at "
               "least one token plus recorded traces accepted (each recorded trace has its own random configuration). Legs: coverage.legs[] "
-              "(kind gen = spec->code, trace = code->spec, model = layer B vs layer A). " + rule),
+              "(kind gen = spec->code, trace = code->spec, model = layer B vs layer A, proof = TLAPS theorems about the specification, unbounded). " + rule),
         samples=samples[:6] or [{"note": "no sample"}],
         exhaustive=all(r.get("world", {}).get("MOD", "1") == "1" for r in reps if r.get("kind") == "gen"),
         legs=[{k: v for k, v in r.items() if k not in ("samples", "tlc_tail", "violation_files", "dir")} for r in reps],
@@ -67,6 +67,8 @@ def check_C01(K, prop, tier, seed, t0):
     fns = [(lambda nm=nm, p=p: K.run_gen_leg(prop, nm, p, workers=4, threads=4)) for nm, p in legs]
     fns.append(lambda: K.run_trace_leg(prop, "T-c01", "c01", 300 if q else 20000, seed, shards=6))
     fns.append(lambda: K.run_trace_leg(prop, "T-corpus", "corpus", 4000 if q else 80000, seed, shards=4))
+    # unbounded, specification level: the admissible token is a longest candidate, the first listed among those (TLAPS)
+    fns.append(lambda: K.run_tlaps_leg(prop, "P-TokProofs"))
     reps = K.run_legs(fns, parallel=4)
     return finish(K, prop, tier, seed, t0, "model_checking", reps, None, ASSUME_COMMON,
                   "T: random real-syntax pattern sets (1-6 patterns) on random inputs of 10-120 characters, and the repository's own "
@@ -226,6 +228,10 @@ def gt_check(gen_legs, profile, n_quick, n_thorough, rule):
         fns.append(lambda: K.run_trace_leg(prop, "T-" + profile, profile, n, seed, shards=6))
         if prop in ("C09", "C10"):
             fns.append(lambda: K.run_drift_leg(prop, "D-IterImpl", 200 if q else 5000, seed))
+        if prop in ("C04", "C05"):
+            # unbounded, specification level (TLAPS): candidates are exactly the non-empty matches with a satisfied
+            # lookahead (C04); the admissible token has maximal extent and is the first listed among those (C05)
+            fns.append(lambda: K.run_tlaps_leg(prop, "P-TokProofs"))
         reps = K.run_legs(fns, parallel=4)
         return finish(K, prop, tier, seed, t0, "model_checking", reps, None, ASSUME_COMMON, rule)
     return chk
@@ -262,13 +268,15 @@ LEGS = {
     ],
     "C11": lambda q, seed: [
         ("G-peek", dict(CFGS="U_C10", SYMS="Syms_C06", MAXLEN=3, OPS='{"next", "peek", "setmode"}', MAXDEPTH=4 if q else 5,
-                        DRAIN="FALSE", PEEKNS="{0, 1, 2, 3}", MOD=8 if q else 2, SEED=seed)),
+                        DRAIN="FALSE", PEEKNS="{0, 1, 2, 3, 1000000}", MOD=8 if q else 2, SEED=seed)),
         ("G-peek-graphs", dict(CFGS="U_C06", SYMS="Syms_C06", MAXLEN=3, OPS='{"next", "peek"}', MAXDEPTH=3, DRAIN="FALSE",
                                PEEKNS="{1, 3}", MOD=60 if q else 6, SEED=seed)),
     ],
     "C12": lambda q, seed: [
         ("G-iters", dict(CFGS="U_C10", SYMS="Syms_C06", MAXLEN=2, OPS=HIST, MAXDEPTH=4 if q else 5, DRAIN="FALSE", NITERS=3,
                          PEEKNS="{1}", SECOND="{2, 7}", MOD=3 if q else 3, SEED=seed)),
+        ("G-twin-scanners", dict(CFGS="U_C10", SYMS="Syms_C06", MAXLEN=2, OPS='{"next", "peek", "setmode", "scsetmode", "newiter"}', MAXDEPTH=4 if q else 5,
+                                 DRAIN="FALSE", NITERS=2, PEEKNS="{1}", SECOND="{7}", MOD=5 if q else 2, SEED=seed, TWIN="TRUE")),
     ],
 }
 
@@ -276,8 +284,16 @@ def check_C13(K, prop, tier, seed, t0):
     q = tier == "quick"
     reps = [K.run_gen_leg(prop, "G-builds", dict(CFGS="U_C13", SYMS="Syms_C04", MAXLEN=3, MAXBUILDS=3 if q else 4),
                           workers=8, threads=16, module="Gen_Cache", isolate=True)]
-    return finish(K, prop, tier, seed, t0, "model_checking", reps, None, ASSUME_COMMON,
-                  "all sequences of MaxBuilds cached builds over a base configuration, its one-field neighbours and three "
+    # two valid configurations constructed to have the same FxHash (they differ in two token types), both built
+    # through the cache and scanned; recorded and validated by TLC against Tokenizer (Trace_Api)
+    col = K.run_trace_leg(prop, "T-hash-collision", "c13x", 1, seed, shards=1)
+    if col["traces_recorded"] == 0:
+        K.log("[trace] T-hash-collision: no collision could be constructed for the hasher in use; the leg says nothing")
+    reps.append(col)
+    return finish(K, prop, tier, seed, t0, "model_checking", reps, dict(hash_collision_constructed=col["traces_recorded"] == 1), ASSUME_COMMON,
+                  "T-hash-collision: one recorded trace of three cached builds (A, B, A) of two valid configurations whose Vec<ScannerMode> "
+                  "have equal FxHash (constructed: FxHash is affine in the words it is fed), each scanned; "
+                  "G: all sequences of MaxBuilds cached builds over a base configuration, its one-field neighbours and three "
                   "configurations that do not build; every sequence runs in a fresh process; after every build all inputs up to "
                   "length 3 are scanned and compared with Tokenizer's stream for that configuration and with a build_uncached twin")
 
